@@ -257,6 +257,25 @@ def _qd(p):
                                                'n': -1})
 
 
+_NY = []
+
+
+def ev_fold(p, fold):
+    """The two folds of one wall-clock time are == and hash alike but are
+    instants an hour apart: through every timestamp path."""
+    import datetime
+    import zoneinfo
+    if not _NY:
+        _NY.append(zoneinfo.ZoneInfo('America/New_York'))
+    v = datetime.datetime(2021, 11, 7, 1, 30, tzinfo=_NY[0], fold=fold)
+    return [p.encode.timestamp(v).hex(),
+            p.encode.field_table({'t': v}).hex(),
+            p.frame.marshal(p.header.ContentHeader(
+                0, 1, p.commands.Basic.Properties(timestamp=v)), 1).hex(),
+            p.frame.marshal(p.commands.Queue.Declare(
+                queue='q', arguments={'t': [v]}), 1).hex()]
+
+
 EVENTS = [
     ('construct Queue.Declare', ev_construct('commands.Queue.Declare')),
     ('construct Exchange.Declare', ev_construct('commands.Exchange.Declare')),
@@ -318,6 +337,8 @@ EVENTS = [
         [True, False]).hex()),
     ('encode float 1.0', lambda p, keep: p.encode.field_array(
         [1.0, 0.0, -0.0]).hex()),
+    ('encode wall time fold 0', lambda p, keep: ev_fold(p, 0)),
+    ('encode wall time fold 1', lambda p, keep: ev_fold(p, 1)),
     ('mutate default arguments', ev_mutate_default_arguments),
     ('mutate decoded arguments', ev_mutate_decoded_arguments),
     ('mutate decoded properties', ev_mutate_decoded_properties),
